@@ -91,7 +91,13 @@ func flagArgs(flags uint8) []string {
 }
 
 func runBinary(dir string, args []string, stdin *string, tz string) (*BinResult, error) {
-	cmd := exec.Command(gopkiBin(), append([]string{"sign", dir}, args...)...)
+	full := append([]string{"sign", dir}, args...)
+	if len(dir)%3 == 0 {
+		full = append(full, "-d") // debug logging on: the log statements format their arguments
+	} else if len(dir)%3 == 1 {
+		full = append(full, "-v")
+	}
+	cmd := exec.Command(gopkiBin(), full...)
 	if tz == "" {
 		tz = "UTC"
 	}
